@@ -57,7 +57,7 @@ func init() {
 	core.Register(&core.Rule{
 		ID: "R10.1", Generated: true,
 		Title: "generated Equals compares every field, with an operator fit for its type",
-		Text: "For every generated record, union and complex key: Equals mentions every struct field and embedded include on both sides (receiver and other); a direct == between fields is used only for non-pointer comparable basic types (never for pointers, slices or maps).",
+		Text:  "For every generated record, union and complex key: Equals mentions every struct field and embedded include on both sides (receiver and other); a direct == between fields is used only for non-pointer comparable basic types (never for pointers, slices or maps).",
 		Props: []string{"C10"},
 		Floor: map[string]int{"corpus": 20},
 		Run:   runR101,
@@ -65,7 +65,7 @@ func init() {
 	core.Register(&core.Rule{
 		ID: "R10.2", Generated: true,
 		Title: "hash folds a subset of what Equals compares, under nil tests",
-		Text: "For every generated record and union: every field folded into ComputeHash is compared by Equals (a field hashed but not compared breaks Equal => same hash); pointer-typed fields are dereferenced only under their nil test; ComputeHash contains no map range.",
+		Text:  "For every generated record and union: every field folded into ComputeHash is compared by Equals (a field hashed but not compared breaks Equal => same hash); pointer-typed fields are dereferenced only under their nil test; ComputeHash contains no map range.",
 		Props: []string{"C10"},
 		Floor: map[string]int{"corpus": 20},
 		Run:   runR102,
@@ -869,6 +869,36 @@ func defaultMatches(mod *core.Module, g *genType, ifs *ast.IfStmt, manifestDefau
 			}
 		}
 	case string:
+		// a string constant converted to a byte slice yields its UTF-8 encoding, while the schema literal of a bytes /
+		// fixed default holds one byte per character (<= U+00FF): the two agree for 7-bit text only
+		var convProblem string
+		ast.Inspect(ifs.Body, func(n ast.Node) bool {
+			conv, ok := n.(*ast.CallExpr)
+			if !ok || len(conv.Args) != 1 {
+				return true
+			}
+			tv, isConv := inf.Types[conv.Fun]
+			if !isConv || !tv.IsType() {
+				return true
+			}
+			if sl, ok := tv.Type.Underlying().(*types.Slice); !ok || !types.Identical(sl.Elem().Underlying(), types.Typ[types.Byte]) {
+				return true
+			}
+			if cv := core.ConstOf(inf, conv.Args[0]); cv != nil && cv.Kind() == constant.String {
+				got := []byte(constant.StringVal(cv))
+				var wantB []byte
+				for _, r := range w {
+					wantB = append(wantB, byte(r))
+				}
+				if string(got) != string(wantB) {
+					convProblem = fmt.Sprintf("[]byte(%s) is % x (UTF-8), the schema default is the bytes % x", strconv.Quote(constant.StringVal(cv)), got, wantB)
+				}
+			}
+			return true
+		})
+		if convProblem != "" {
+			return false, convProblem
+		}
 		for _, cv := range consts {
 			if cv.Kind() == constant.String && constant.StringVal(cv) == w {
 				return true, strconv.Quote(w)
